@@ -85,6 +85,30 @@ fn rust_ty_sexp(t: &ATy) -> Sexp {
     full(t)
 }
 
+fn check_attachment(rep: &mut Report, items: &[Sexp], shapes: &[ATy], label: &str) {
+    // (c) attachment rule on the IR: helper iff ID, and the helper chosen fits the type
+    for it in items.iter().filter(|i| i.head() == Some("struct")) {
+        for f in struct_fields(it) {
+            let is_id_field = f.rust.starts_with('f') && f.rust[1..].chars().all(|c| c.is_ascii_digit());
+            rep.count(if is_id_field { "ir-field:ID" } else { "ir-field:other" });
+            if is_id_field != f.deser_with.is_some() && !f.flatten && f.rust != "on" {
+                rep.fail("id-helper-attachment", json!({"schema_rendering": label, "struct": it.items()[1].render(), "field": f.rust, "helper": f.deser_with, "type": ty_string(f.ty)}));
+            }
+            if is_id_field {
+                let idx: usize = f.rust[1..].parse().unwrap_or(0);
+                let shape = &shapes[idx];
+                let expected_helper = if shape.has_list() { "deserialize_nested_id" } else if shape.is_non_null() { "deserialize_id" } else { "deserialize_option_id" };
+                if !f.deser_with.map(|h| h.ends_with(expected_helper)).unwrap_or(false) {
+                    rep.fail("id-helper-does-not-fit-type", json!({"schema_rendering": label, "field": f.rust, "graphql_type": shape.render(), "helper": f.deser_with, "rust_type": ty_string(f.ty)}));
+                }
+                if f.default == shape.is_non_null() {
+                    rep.fail("id-default-attribute", json!({"schema_rendering": label, "field": f.rust, "graphql_type": shape.render(), "default": f.default}));
+                }
+            }
+        }
+    }
+}
+
 pub fn run(a: &Args) -> i32 {
     let mut rep = Report::new(
         "C16",
@@ -174,7 +198,8 @@ pub fn run(a: &Args) -> i32 {
         }],
         frags: vec![AFrag { name: "Ids".into(), on: "Holder".into(), sels: all.clone() }],
     };
-    let sdl = schema.to_sdl(&RenderKnobs::default());
+    // the compiled case reads the schema from SDL that re-declares the built-in scalars
+    let sdl = schema.to_sdl(&RenderKnobs { sdl_builtin_scalars: true, ..RenderKnobs::default() });
     let qtext = doc.render();
     let opts = Opts::harness();
     let res = ctx.run(&sdl, false, &qtext, &opts);
@@ -188,25 +213,20 @@ pub fn run(a: &Args) -> i32 {
             return rep.finish();
         }
     };
-    // (c) attachment rule on the IR: helper iff ID, and the helper chosen fits the type
-    for it in modules[0].items.iter().filter(|i| i.head() == Some("struct")) {
-        for f in struct_fields(it) {
-            let is_id_field = f.rust.starts_with('f') && f.rust[1..].chars().all(|c| c.is_ascii_digit());
-            rep.count(if is_id_field { "ir-field:ID" } else { "ir-field:other" });
-            if is_id_field != f.deser_with.is_some() && !f.flatten && f.rust != "on" {
-                rep.fail("id-helper-attachment", json!({"struct": it.items()[1].render(), "field": f.rust, "helper": f.deser_with, "type": ty_string(f.ty)}));
-            }
-            if is_id_field {
-                let idx: usize = f.rust[1..].parse().unwrap_or(0);
-                let shape = &shapes[idx];
-                let expected_helper = if shape.has_list() { "deserialize_nested_id" } else if shape.is_non_null() { "deserialize_id" } else { "deserialize_option_id" };
-                if !f.deser_with.map(|h| h.ends_with(expected_helper)).unwrap_or(false) {
-                    rep.fail("id-helper-does-not-fit-type", json!({"field": f.rust, "graphql_type": shape.render(), "helper": f.deser_with, "rust_type": ty_string(f.ty)}));
-                }
-                if f.default == shape.is_non_null() {
-                    rep.fail("id-default-attribute", json!({"field": f.rust, "graphql_type": shape.render(), "default": f.default}));
-                }
-            }
+    // (c) attachment rule on the IR, for three renderings of the same schema: plain SDL, SDL that re-declares the
+    // built-in scalars (`scalar ID` ...), introspection JSON
+    check_attachment(&mut rep, &modules[0].items, &shapes, "sdl-with-builtin-scalars");
+    for (label, text, is_json) in [
+        ("sdl", schema.to_sdl(&RenderKnobs::default()), false),
+        ("json", serde_json::to_string(&schema.to_json(&RenderKnobs::default())).unwrap(), true),
+    ] {
+        let r = ctx.run(&text, is_json, &qtext, &opts);
+        if !r.diffs.is_empty() {
+            rep.disagree(json!({"what": "IR", "schema_rendering": label, "diffs": r.diffs.iter().take(6).collect::<Vec<_>>()}));
+        }
+        match r.modules {
+            Some(m) if !m.is_empty() => check_attachment(&mut rep, &m[0].items, &shapes, label),
+            _ => rep.fail("generation-failed", json!({"schema_rendering": label, "outcome": format!("{:?}", r.real).chars().take(300).collect::<String>()})),
         }
     }
     let code = CaseCode { id: 0, prelude: String::new(), tokens, ops: vec![("Q".into(), "q".into())], enums: vec![], no_serialize: false };
